@@ -129,7 +129,7 @@ def get_unop_instruction(op: str):
     return {
         "-": ("sub", lambda x: -_e(x)),
         "~": ("neg", lambda x: ~_e(x)),
-        "not": ("seqz", lambda x: not _e(x)),
+        "not": ("seqz", lambda x: int(not _e(x))),
     }.get(op, (None, None))
 
 
@@ -142,8 +142,8 @@ def get_binop_instruction(op: str):
         "/": ("div", lambda x, y: _e(x) / _e(y)),
         "%": ("mod", lambda x, y: _e(x) % _e(y)),
         "**": ("pow", lambda x, y: _e(x) ** _e(y)),
-        "and": ("and", lambda x, y: _e(x) and _e(y)),
-        "or": ("or", lambda x, y: _e(x) and _e(y)),
+        "and": ("and", lambda x, y: int(_e(x)) & int(_e(y))),
+        "or": ("or", lambda x, y: int(_e(x)) | int(_e(y))),
         "^": ("xor", lambda x, y: int(_e(x)) ^ int(_e(y))),
         "&": ("and", lambda x, y: int(_e(x)) & int(_e(y))),
         ">>": ("srl", lambda x, y: int(_e(x)) >> int(_e(y))),
